@@ -28,6 +28,11 @@ type c06ChildIn struct {
 	ID   int    `json:"id"`
 	Src  string `json:"src"`  // whole program with func main
 	Defs string `json:"defs"` // the same definitions with Main/Probe instead of main
+	// Aux: a whole program outside the Coq models (receiver pool stream): variant A only, with
+	// os.Stdout of the script bound to the interpreter's Stdout (YAEGI_SPECIAL_STDIO).
+	Aux bool `json:"aux,omitempty"`
+	// Session: a usability session on ONE interpreter (c06_aux.go); Src and Defs are unused.
+	Session *c06Session `json:"session,omitempty"`
 }
 
 type c06ChildOut struct {
@@ -44,6 +49,8 @@ type c06ChildOut struct {
 	Stdout2 string `json:"stdout2"`
 	End2    string `json:"end2"`
 	Probe   string `json:"probe"`
+	// session: one line per observed step
+	Lines []string `json:"lines,omitempty"`
 }
 
 // contractViolation checks the part of C06 that has no compiled counterpart.
@@ -167,6 +174,15 @@ func c06Eval(i *interp.Interpreter, src string, timeout time.Duration, plain boo
 
 func c06RunOne(in c06ChildIn, timeout time.Duration) c06ChildOut {
 	o := c06ChildOut{ID: in.ID}
+	if in.Session != nil {
+		o.Lines = c06RunSession(*in.Session, timeout)
+		o.End, o.End2, o.Probe = "ok", "ok", "4242"
+		return o
+	}
+	if in.Aux {
+		os.Setenv("YAEGI_SPECIAL_STDIO", "1")
+		defer os.Unsetenv("YAEGI_SPECIAL_STDIO")
+	}
 	{
 		var stdout, stderr bytes.Buffer
 		i := interp.New(interp.Options{Stdout: &stdout, Stderr: &stderr})
@@ -178,6 +194,10 @@ func c06RunOne(in c06ChildIn, timeout time.Duration) c06ChildOut {
 		_, o.End, info = c06Eval(i, in.Src, timeout, false)
 		o.IsPanicErr, o.ValueType, o.Wraps, o.VKind = info.isPanic, info.vtype, info.wraps, info.vkind
 		o.Stdout = stdout.String()
+	}
+	if in.Aux {
+		o.End2, o.Stdout2, o.Probe = o.End, o.Stdout, "4242"
+		return o
 	}
 	if o.End == "timeout" || strings.HasPrefix(o.End, "host-crash") || strings.HasPrefix(o.End, "compile-error") {
 		o.End2, o.Probe = o.End, "skipped"
